@@ -29,7 +29,7 @@ CLAIMED["C12"] = dict(
     text="Alignment is proved for all stems and readings and every table row; row membership, core forms and guess "
          "conjugability are kernel-evaluated over the complete regenerated tables; the model is tied to speech.rs/entry.rs "
          "by running both on the same requests (conj, guess_form over all kana, new_guessed, words).",
-    note="Specification data authored in Lean (gojūon rows, euphonic set, core forms per class). Rust String/UTF-8 slicing "
+    note="Specification data authored in Lean (gojūon rows, euphonic heads per class and row, core forms per class). Rust String/UTF-8 slicing "
          "modelled by utf8Len/sliceBytes; HashSet results compared as sets. C12_guess_accepts assumes the guesser's cut lies "
          "inside the shared kana ending. Axioms: propext, Classical.choice, Quot.sound.",
     design="5/C12")
@@ -200,25 +200,37 @@ CLAIMED["C13"] = dict(
     note="PARTIAL: tokio's scheduler and blocking pool are not modelled, only worker occupancy. " + SRV_NOTE, design="5/C13")
 CLAIMED["C14"] = dict(
     engine="lean+corr_concurrent",
-    technique="Lean 4 proof that the extracted nested lock acquisitions respect one fixed order and that such an order excludes "
-              "every waiting cycle + concurrent clients (up to 32) with delay hooks against the real server",
-    text="C14_lock_order (decide over the regenerated lock edges), C14_no_deadlock (generic), C14_no_deadlock_here, and on the "
-         "state machine C14_dict_changes_by_whole_entries (in every history the dictionary changes only by all forms of the queue's "
-         "head entry at once) and C14_answer_is_sequential are kernel-checked; concurrently, every request must complete and registrations must become visible atomically and "
-         "monotonically, confirmations must not be lost.",
-    note="PARTIAL: that each modelled step is one critical section of the real server is validated by the concurrent driver, "
-         "not proved. " + SRV_NOTE, design="5/C14")
+    technique="Lean 4 proofs on an interleaving model whose per-handler / per-loop event lists (lock acquisitions, scope-end releases, "
+              "channel operations, data actions) are regenerated from main.rs/method.rs on every run: the lock discipline is an invariant "
+              "of every schedule, hence mutual exclusion and no deadlock for any number of concurrent requests; each handler run alone "
+              "equals the atomic step of the server model and critical sections are isolated under every schedule; when the discipline "
+              "breaks, an exhaustive search of the model for a deadlocking schedule + concurrent clients (up to 32) with delay hooks "
+              "against the real server",
+    text="C14_lock_order, C14_no_deadlock(_here) (static), and operationally on Model/Conc: C14_conc_discipline (decide over the generated "
+         "paths), C14_conc_mutex, C14_conc_requests_never_stuck, C14_conc_lock_waiters_progress, C14_conc_merge_one_section; on Model/Fine "
+         "(the same interleavings with the data): C14_fine_shapes, C14_fine_convert_is_atomic / C14_fine_others_are_atomic (a handler or loop "
+         "iteration with nothing in between = convert / confirmId / register / applyEntry / save of Model/Server) and C14_fine_isolation "
+         "(while a thread holds a lock nobody else is at an action on the data it protects); on histories of atomic steps "
+         "C14_dict_changes_by_whole_entries and C14_answer_is_sequential. Concurrently, on the real server, every request must complete, "
+         "registrations become visible atomically and monotonically, confirmations are not lost.",
+    note="PARTIAL: the step from (handlers alone = atomic steps) + (sections isolated) to 'every interleaving is equivalent to a history of "
+         "atomic steps' is the standard reduction argument and is not mechanised; liveness under an unfair mutex is not claimed; "
+         "std::sync::Mutex / mpsc are modelled (acq enabled iff free, unbounded send never waits), the event extraction is syntactic "
+         "(scope-end release, statement-end release of temporaries, drop()). " + SRV_NOTE, design="5/C14")
 CLAIMED["C15"] = dict(
     engine="lean+corr_concurrent",
-    technique="Lean 4 proofs on the state machine: the answering step stores the session, ids are fresh, other clients' "
-              "confirmations keep it, a registration is applied exactly once + back-to-back conversion/confirmation pairs from "
-              "1–32 concurrent clients on the real server",
-    text="C15_session_recorded, C15_sids_fresh_convert, C15_session_survives_other_confirm, C15_register_once and, by induction "
-         "over arbitrary histories of atomic steps (any interleaving of other clients and background tasks), C15_sids_fresh_history, "
-         "C15_confirm_honoured (the confirmation finds the session and updates the count exactly once) and "
-         "C15_registrations_applied_once (the drained channel is appended to the user dictionary once, in order) are kernel-checked; "
+    technique="Lean 4 proofs on the state machine (the answering step stores the session, ids fresh, a registration applied once) and on "
+              "the interleaving model with the extracted event lists: the session is stored before the answer on every path, and under every "
+              "schedule a confirmation that pops after the answer finds exactly the stored session and its candidates + back-to-back "
+              "conversion/confirmation pairs from 1–32 concurrent clients and concurrent confirmations on a large learned table on the real server",
+    text="C15_session_recorded, C15_sids_fresh_convert, C15_session_survives_other_confirm, C15_register_once, and over arbitrary histories "
+         "of atomic steps C15_sids_fresh_history, C15_confirm_honoured, C15_registrations_applied_once; on the extracted event lists "
+         "C15_conc_session_before_answer, C15_conc_confirm_sections, C15_conc_registration_queued (decide), and for every schedule of the "
+         "interleaving model C15_conc_confirmation_finds_session (ids only) and C15_fine_confirmation_gets_answered_candidate (with the data: "
+         "the confirmation's candidate is the one its request string names among the answered candidates, in the conversion's context); "
          "on the real server the learned count must equal the number of acknowledged confirmations in every configuration.",
-    note="PARTIAL: OS/tokio interleavings are sampled, not enumerated. " + SRV_NOTE, design="5/C15")
+    note="PARTIAL: OS/tokio interleavings are sampled on the real server; the theorems quantify over all schedules of the model, whose "
+         "event lists are extracted syntactically. " + SRV_NOTE, design="5/C15")
 CLAIMED["C20"] = dict(
     engine="lean+corr_kkc+corr_server",
     technique="Lean 4 proofs about to_string_with_affix on chains as the search returns them (three affix patterns, no-affix case) "
